@@ -88,6 +88,27 @@ CHECKS['C02'] = dict(
          'consults comes from the harness journal of the live run, not from recorder internals.',
     technique='Hypothesis property-based testing against a reference model of the missing-key policy')
 
+CHECKS['C04'] = dict(
+    engine='progsim', category='fault_enumeration', design='DESIGN.md 3 C04',
+    text='Hypothesis generates programs; the harness enumerates every single placement of every tolerated fault kind at '
+         'every step (plus sampled pairs, disabled/skipped variants) and compares the decorated run with the undecorated '
+         'twin built from the same description: operation outcome, per-call-site object identity with what the wrapped '
+         'body produced, body journal, cassette untouched when disabled. A threaded part provokes a discard while other '
+         'workers are inside intercepted bodies (rendezvous).',
+    note='Twin and decorated class are built from one description with identity vs real decorators. Thread '
+         'interleavings are OS-given around a rendezvous (no deterministic scheduler for the recorder; see DESIGN.md).',
+    technique='Hypothesis-generated programs x exhaustive single-fault placement; differential against an undecorated twin')
+CHECKS['C05'] = dict(
+    engine='progsim', category='fault_enumeration', design='DESIGN.md 3 C05',
+    text='Same fault enumeration as C04 (capture faults, discards, forced sampling, ordinary exceptions and '
+         'BaseException terminations at every step incl. inside intercepted bodies, failing save/extractor, sampling '
+         'rates) observed at a spy cassette: exactly one finalisation per created recording, abort and unchanged store '
+         'whenever a capture failed or a discard happened, and every stored non-incomplete recording replays without a '
+         'missing-key error and without executing a wrapped body.',
+    note='Model of "capture failed / discarded" computed from the program description (pbt/faultrun.model_effects). '
+         'Spy = thin subclass of the real in-memory / file / S3 cassette.',
+    technique='Hypothesis-generated programs x exhaustive fault/crash-point placement; invariant over a spy-cassette log')
+
 ENGINES = [
     ('progsim', 'pbt/progsim.py', 'program simulator: JSON program descriptions -> real decorated classes, undecorated '
                                   'twin, journals, fault injection, program strategies', ['C01', 'C02', 'C03', 'C04',
